@@ -1512,7 +1512,7 @@ func runBitmapWordCopies(c *Ctx, rule string) {
 // ---- C13-M3: Snapshot.Copy shares no map with the snapshot it copies, and copies every map.
 func runSnapshotCopyDeep(c *Ctx, rule string) {
 	p := c.P
-	c.Rule(rule, "Snapshot.Copy is deep at the level the mutators write: every map field of commits.Snapshot is populated element by element (or cloned) in a fresh snapshot, and no map of the receiver is stored into the copy — the copies handed to patches and listers never alias the cached snapshot")
+	c.Rule(rule, "Snapshot.Copy is deep at the level the mutators write: no slice field is shared with the receiver, every map field of commits.Snapshot is populated element by element (or cloned) in a fresh snapshot, and no map of the receiver is stored into the copy — the copies handed to patches and listers never alias the cached snapshot")
 	fn := p.Func("(*lake/commits.Snapshot).Copy")
 	st, _ := func() (*types.Struct, bool) {
 		t := p.Type("lake/commits", "Snapshot")
@@ -1567,6 +1567,17 @@ func runSnapshotCopyDeep(c *Ctx, rule string) {
 	}
 	for i := 0; i < st.NumFields(); i++ {
 		f := st.Field(i)
+		if _, ok := f.Type().Underlying().(*types.Slice); ok {
+			// a slice shared with the receiver shares its backing array: two copies of one cached
+			// snapshot then append into the same spare capacity and overwrite each other's entries
+			construct := "(*lake/commits.Snapshot).Copy field " + f.Name()
+			if aliased == f.Name() || strings.HasPrefix(aliased, "(") {
+				c.Fail(rule, construct, fn.Pos(), "the copy shares this slice (and its backing array) with the receiver ("+aliased+"): two snapshots copied from the same cached commit append into the same spare capacity, so the second sibling's append overwrites the first one's entry and a query at the first commit scans the other branch's object")
+			} else {
+				c.OK(rule, construct, fn.Pos(), "not shared with the receiver")
+			}
+			continue
+		}
 		if _, ok := f.Type().Underlying().(*types.Map); !ok {
 			continue
 		}
